@@ -799,6 +799,21 @@ func (b *built) checkpoint(viaString bool) {
 	}
 	if re := y.UpdateData(); !bytes.Equal(re, got) {
 		b.fail("roundtrip:reencode-differs", "decoding the encoded section and encoding again gives different bytes", re, got)
+		return
+	}
+	// the bytes returned by this encoding stay what they are when another signal is encoded afterwards
+	o := scte35.CreateSCTE35()
+	ts := scte35.CreateTimeSignalCommand()
+	ts.SetHasPTS(true)
+	ts.SetPTS(gots.PTS(b.r.U33()))
+	o.SetCommandInfo(ts)
+	od := scte35.CreateSegmentationDescriptor()
+	od.SetUPIDType(0x0c)
+	od.SetUPID(b.r.Bytes(len(got) % 60))
+	o.SetDescriptors([]scte35.SegmentationDescriptor{od})
+	o.UpdateData()
+	if !bytes.Equal(got, b.last) || !bytes.Equal(b.x.Data(), b.last) {
+		b.fail("encode:earlier-result-changed", "bytes returned by UpdateData() / Data() changed when another signal was encoded afterwards", got, b.last)
 	}
 }
 
